@@ -390,8 +390,11 @@ class Ctx:
         ev = {"property_id": self.pid, "tier": self.tier, "seed": self.seed, "level": "model_checking",
               "coverage": cov, "assumptions": self.assumptions, "wall_s": round(wall, 2),
               "violations": len(self.violations)}
-        os.makedirs(os.path.join(VERIF, "evidence"), exist_ok=True)
-        json.dump(ev, open(os.path.join(VERIF, "evidence", "%s.json" % self.pid), "w"), indent=1, default=str)
+        # evidence describes runs against /repo itself; a run against a scratch tree (VERIF_REPO, used by
+        # bin/seedtest and bin/selftest) must not overwrite it
+        evdir = os.path.join(VERIF, "evidence") if REPO == "/repo" else tempfile.mkdtemp(prefix="verif-evidence-")
+        os.makedirs(evdir, exist_ok=True)
+        json.dump(ev, open(os.path.join(evdir, "%s.json" % self.pid), "w"), indent=1, default=str)
         self.cleanup()
         if self.violations:
             self.log("FAILED: %d violation(s)" % len(self.violations))
